@@ -99,6 +99,7 @@ fn decode_feed(c: &mut Cur) -> Feed {
         .normalised(),
         chunk,
         ctor,
+        late_chunk: false,
     }
 }
 
